@@ -206,9 +206,10 @@ def alt_value(default, alt, salt=0):
     if isinstance(default, bool):
         return default
     if isinstance(default, int):
-        return default + 1 + salt
+        # salt 2: a signed integer (text forms '-3' / '+3' must stay integers)
+        return -(abs(default) + 3) if salt >= 2 else default + 1 + salt
     if isinstance(default, float):
-        return default * 1.25 + 0.125 + salt
+        return -(abs(default) * 1.25 + 0.375) if salt >= 2 else default * 1.25 + 0.125 + salt
     if isinstance(default, str):
         return default
     return default
@@ -236,12 +237,13 @@ class WholeSystem(Part):
                 'through {rc file, option strings without rc file, option strings over an rc file with other values, '
                 'option strings over an rc file lacking the sections}; save_config -> new System round trip; dict '
                 'channel; Config.update with legal and illegal values for every field with declared alternatives; histories '
-                '[save | print]? -> Config.update(all fields) -> save_config -> new System')
+                '[save | print]? -> (Config.update | attribute assignment)(all fields) -> save_config -> new System')
 
     def cases(self, tier):
         out = [dict(mode=m, salt=s) for m in ('file', 'options_norc', 'options_over_file', 'options_over_partial',
                                               'roundtrip', 'dict', 'update', 'update_roundtrip',
-                                              'save_update_roundtrip', 'print_update_roundtrip') for s in (0, 1)]
+                                              'save_update_roundtrip', 'print_update_roundtrip', 'attr_roundtrip',
+                                              'save_attr_roundtrip', 'print_attr_roundtrip') for s in (0, 1, 2)]
         return out
 
     def init_worker(self):
@@ -297,13 +299,14 @@ class WholeSystem(Part):
                         out.bad('roundtrip_changes_value_or_type', f'{s}.{f}: {a!r} ({type(a).__name__}) -> '
                                 f'{b!r} ({type(b).__name__}) after save_config + load', field=f'{s}.{f}')
                         break
-            elif mode in ('update_roundtrip', 'save_update_roundtrip', 'print_update_roundtrip'):
+            elif mode in ('update_roundtrip', 'save_update_roundtrip', 'print_update_roundtrip', 'attr_roundtrip',
+                          'save_attr_roundtrip', 'print_attr_roundtrip'):
                 # history: [save | print]? -> Config.update(dict) on every section -> save_config -> new System
                 s1 = self.build(default_config=True)
                 rc0 = rc + '.first'
-                if mode == 'save_update_roundtrip':
+                if mode.startswith('save_'):
                     s1.save_config(rc0, overwrite=True)
-                elif mode == 'print_update_roundtrip':
+                elif mode.startswith('print_'):
                     for sec in {s for s, f in want}:
                         repr(_cfg(s1, sec))
                         _cfg(s1, sec).doc()
@@ -311,7 +314,12 @@ class WholeSystem(Part):
                 for (s, f), v in want.items():
                     by_sec.setdefault(s, {})[f] = v
                 for sec, vals in by_sec.items():
-                    _cfg(s1, sec).update(vals)
+                    if 'attr' in mode:
+                        # the everyday channel: plain attribute assignment on the live configuration object
+                        for f_, v_ in vals.items():
+                            setattr(_cfg(s1, sec), f_, v_)
+                    else:
+                        _cfg(s1, sec).update(vals)
                 rc2 = rc + '.saved'
                 s1.save_config(rc2, overwrite=True)
                 ss = self.build(config_path=rc2)
@@ -350,13 +358,19 @@ class WholeSystem(Part):
             out.obs = dict(mode=mode, raised=type(e).__name__)
             return out
         wrong = []
+        wrong_type = []
         for (s, f), v in want.items():
             eff = _cfg(ss, s).__dict__.get(f)
             exp = ref_parse(str(v))
             if not (eff == exp):
                 wrong.append((f'{s}.{f}', repr(eff), repr(exp)))
+            elif isinstance(exp, int) and not isinstance(exp, bool) and isinstance(eff, float):
+                # an integer given as text ('3', '-3') is an integer in effect (the parsing rule every channel documents)
+                wrong_type.append((f'{s}.{f}', repr(eff), repr(exp)))
         if wrong:
             out.bad(f'value_not_in_effect:{mode}', f'{len(wrong)} fields, e.g. {wrong[:4]}')
+        if wrong_type:
+            out.bad(f'integer_in_effect_as_float:{mode}', f'{len(wrong_type)} fields, e.g. {wrong_type[:4]}')
         out.obs = dict(mode=mode, fields=len(want), wrong=len(wrong))
         out.transitions = len(want)
         return out
